@@ -360,7 +360,7 @@ Proof.
     constructor; cbn [w auth store]; [reflexivity | | exact (storeok_kd _ _ _ Hk (inv_store _ _ I)) | exact Hb1].
     rewrite (inv_auth _ _ I), drop_peer_abs, connect_binds by exact Hok. reflexivity.
   - (* DiscoveryReply *)
-    cbn [mon]. unfold advance. rewrite Hw. split; [reflexivity|].
+    cbn [mon]. unfold advance. rewrite Hw. rewrite reply_no_gone, drop_gone_nil. split; [reflexivity|].
     pose proof (neutral_ops_frame s (DiscoveryReply p m0) eq_refl) as Hf.
     pose proof (neutral_ops_kd s (DiscoveryReply p m0) eq_refl) as Hk.
     destruct (step s (DiscoveryReply p m0)) as [s1 out]. destruct Hf as [[Hbb _] _]. simpl fst in *.
